@@ -133,6 +133,9 @@ def parseEv (e : String) : Option SEv :=
     if body = "s" then some (.start r)
     else if body = "e" then some .eof
     else if body.startsWith "f:" then (parseFrameToks (body.drop 2).toString).map (.frame · r)
+    -- `g<cut>:` = the same frame delivered in two segments: the same input for the model
+    else if body.startsWith "g" ∧ (body.splitOn ":").length ≥ 2 then
+      (parseFrameToks (":".intercalate ((body.splitOn ":").drop 1))).map (.frame · r)
     else if body.startsWith "x:" then (parseHex (body.drop 2).toString).map .raw
     else if body.startsWith "p:" then (body.drop 2).toString.toNat?.map .part
     else if body.startsWith "h" ∨ body.startsWith "H" then (body.drop 1).toString.toNat?.map (.bcHave · r)
@@ -318,8 +321,12 @@ def handVerdict (prop : String) (args res : List String) : Verdict :=
     -- "s-": the harness keeps stale partial files under the names of the pieces being fetched; the task must behave the same
     -- "d-": a directory of the piece file's name is in the way: the store fails, the task must end without reporting the piece
     let storeFails := mode.startsWith "d-"
-    let mode := if mode.startsWith "s-" ∨ mode.startsWith "d-" then (mode.drop 2).toString else mode
+    -- "v-": what lies there is the verified piece itself (stored by another connection): it must stay
+    let mode := if mode.startsWith "s-" ∨ mode.startsWith "d-" ∨ mode.startsWith "v-" then (mode.drop 2).toString else mode
     if outs = "P" ∨ (outs.splitOn "PANIC").length > 1 then vProp "task-panicked" "hand" else
+    if (outs.splitOn "gone=").length > 1 then
+      (if (outs.splitOn ":verified").length > 1 then vProp "P01-verified-piece-file-deleted-by-a-connection-that-did-not-store-it" "hand-gone"
+       else vDiff "hand" "no piece file is ever removed by a connection task" "hand-gone") else
     match nps.toNat?, initState mode (nps.toNat?.getD 0), (script.splitOn ";").mapM parseEv with
     | some _, some st0, some evs =>
       -- a connection we opened starts with its handshake: such scripts begin with the `s` event
